@@ -93,7 +93,7 @@ def Gate.controlled : Gate → Nat → Gate
   | .pow g e, k => (g.controlled k).power e
   | .exp g, k => .ctrl (.exp g) k
 
-inductive Err | badref | value | runtime | notimpl
+inductive Err | badref | value | runtime | notimpl | index
 deriving DecidableEq, Repr
 
 /-- `sub_symbols` with a symbol ↦ number map -/
@@ -355,12 +355,20 @@ def ddAdd : DDict → Bits → Rat → DDict
   | [], k, v => [(k, v)]
   | (k', v') :: rest, k, v => if k' = k then (k', v' + v) :: rest else (k', v') :: ddAdd rest k v
 
-def marginalSteps (d : DDict) (qs : List Nat) : List DDict :=
-  (d.foldl (fun (acc : List DDict × DDict) kv =>
-      let nxt := ddAdd acc.2 (qs.map (fun i => kv.1.getD i 0)) kv.2; (acc.1 ++ [nxt], nxt)) ([], [])).1
+/-- `key[i]` on a tuple with Python's indexing: a negative `i` counts from the end.  Out-of-range
+    positions are excluded by `subCheck` before this is used (the default is never reached). -/
+def pyIndex (k : Bits) (i : Int) : Nat :=
+  if 0 ≤ i then k.getD i.toNat 0 else k.getD ((k.length : Int) + i).toNat 0
 
-def marginalV (d : DDict) (qs : List Nat) : DDict :=
-  d.foldl (fun acc kv => ddAdd acc (qs.map (fun i => kv.1.getD i 0)) kv.2) []
+/-- `tuple(key[i] for i in active_qubits)` -/
+def subKey (k : Bits) (qs : List Int) : Bits := qs.map (pyIndex k)
+
+def marginalSteps (d : DDict) (qs : List Int) : List DDict :=
+  (d.foldl (fun (acc : List DDict × DDict) kv =>
+      let nxt := ddAdd acc.2 (subKey kv.1 qs) kv.2; (acc.1 ++ [nxt], nxt)) ([], [])).1
+
+def marginalV (d : DDict) (qs : List Int) : DDict :=
+  d.foldl (fun acc kv => ddAdd acc (subKey kv.1 qs) kv.2) []
 
 /-- `preprocess_distibution_dict`: a FRESH dict with the same items (later duplicate keys overwrite) -/
 def ddSet : DDict → Bits → Rat → DDict
@@ -373,11 +381,24 @@ def isDistribution (d : DDict) : Bool :=
   | [] => false
   | (k, _) :: _ => d.all (fun kv => decide (0 ≤ kv.2)) && d.all (fun kv => kv.1.length == k.length)
 
+def ratAbs (x : Rat) : Rat := if x < 0 then -x else x
+
+/-- `math.isclose(norm, 1)` with the default tolerances (`rel_tol = 1e-9`, `abs_tol = 0`):
+    `|norm - 1| ≤ 1e-9 · max(|norm|, 1)`.  (`is_normalized`) -/
+def isNormalized (norm : Rat) : Bool :=
+  decide (ratAbs (norm - 1) ≤ (1 / 1000000000 : Rat) * (if ratAbs norm < 1 then 1 else ratAbs norm))
+
+/-- `np.isclose(p, 1.0)` with the default tolerances (`rtol = 1e-5`, `atol = 1e-8`):
+    `|p - 1| ≤ 1e-8 + 1e-5 · 1`.  (`Wavefunction._check_normalization`) -/
+def isUnitProbability (p : Rat) : Bool :=
+  decide (ratAbs (p - 1) ≤ (1 / 100000000 : Rat) + (1 / 100000 : Rat))
+
 /-- the constructor of MeasurementOutcomeDistribution on an (already re-keyed) dict.
-    `math.isclose(norm, 1)` is the exact test on the dyadic inputs of the correspondence run. -/
+    `is_normalized` is `math.isclose(norm, 1)`; the float sum and the exact sum differ by rounding only
+    (the correspondence inputs stay away from the boundary of the tolerance). -/
 def distCtorV (d : DDict) (normalize : Bool) : Except Err DDict :=
   if ¬ isDistribution d then .error .runtime
-  else if dsum d = 1 then .ok d
+  else if isNormalized (dsum d) then .ok d
   else if normalize then
     if dsum d = 0 then .error .value
     else .ok (d.map (fun kv => (kv.1, kv.2 * (1 / dsum d))))
@@ -424,7 +445,7 @@ inductive Call
   | measRepresenting (d : Ref) (n : Nat) (samples : List Bits)
   -- distributions
   | distNew (d : Ref) (normalize : Bool)
-  | distSub (d : Ref) (qs : List Nat)
+  | distSub (d : Ref) (qs : List Int)
   -- wavefunctions
   | wfNew (a : Ref)
   | wfBind (w : Ref)
@@ -507,14 +528,17 @@ def mulOperand (ob : Obs) (vb : List TermV) : List TermV :=
 /-- `counts[b] / num_measurements` for every counted bitstring -/
 def freqV (bs : List Bits) : DDict := (countsV bs).map (fun c => (c.1, (c.2 : Rat) / (bs.length : Rat)))
 
-/-- the argument checks of `subdistribution` (both `ValueError`; `max([])` raises it too) -/
-def subCheck (d : DDict) (qs : List Nat) : Option Err :=
+/-- the argument checks of `subdistribution` (both `ValueError`; `max([])` raises it too), then what
+    tuple indexing does with an index counted from the end: accepted down to `-len(key)`, below that
+    `key[i]` raises `IndexError` (on the first key, before anything is returned) -/
+def subCheck (d : DDict) (qs : List Int) : Option Err :=
   match qs, d with
   | [], _ => some .value
   | _, [] => some .badref
   | q :: qs', (k, _) :: _ =>
-    if qs'.foldl max q + 1 > k.length then some .value
+    if qs'.foldl max q + 1 > (k.length : Int) then some .value
     else if ¬ (q :: qs').Nodup then some .value
+    else if (q :: qs').any (fun i => decide (i < -(k.length : Int))) then some .index
     else none
 
 /-- WHAT A CALL RETURNS, as a function of the observations of its arguments only. -/
@@ -626,14 +650,14 @@ def valueOf (c : Call) (vs : List (Option Obs)) : Outcome :=
   | .distSub _ qs => match vs with
     | [some (.dist d)] => (match subCheck d qs with
       | some e => .err e
-      | none => match distCtorV (preprocessV (marginalV d qs)) (dsum d = 1) with
+      | none => match distCtorV (preprocessV (marginalV d qs)) (isNormalized (dsum d)) with
         | .ok d' => .ok (.obj (.dist d'))
         | .error e => .err e)
     | _ => .err .badref
   | .wfNew _ => match vs with
     | [some (.arr a)] =>
       if ¬ isPow2 a.length then .err .value
-      else if (probsV a).foldl (· + ·) 0 = 1 then .ok (.obj (.wf a)) else .err .value
+      else if isUnitProbability ((probsV a).foldl (· + ·) 0) then .ok (.obj (.wf a)) else .err .value
     | _ => .err .badref
   | .wfBind _ => match vs with
     | [some (.wf a)] => .ok (.obj (.wf a))
@@ -895,7 +919,7 @@ def effects (h : Heap) (c : Call) (vs : List (Option Obs)) : Heap × Option Ref 
       let nc := alloc h (.ddict [])                             -- new_counts = {}
       let ks := alloc nc.1 (.blist (d.map (·.1)))               -- copy.deepcopy(list(keys))
       let h1 := (marginalSteps d qs).foldl (fun acc s => write acc nc.2 (.ddict s)) ks.1   -- new_counts[k] = …
-      let r := distCtorE h1 (marginalV d qs) (dsum d = 1); (r.1, some r.2)
+      let r := distCtorE h1 (marginalV d qs) (isNormalized (dsum d)); (r.1, some r.2)
     | _ => (h, none)
   | .wfNew l => match vs with
     | [some (.arr _)] => let w := alloc h (.wf l); (w.1, some w.2)   -- np.asarray: no copy
@@ -929,13 +953,13 @@ def run (h : Heap) : List Call → Heap × List StepResult
     (r.1, s.2 :: r.2)
 
 /-- THE CODE BEFORE d900b77: `subdistribution` popped every key out of `self.distribution_dict` -/
-def effectsSubPop (h : Heap) (rd : Ref) (qs : List Nat) : Heap × Option Ref :=
+def effectsSubPop (h : Heap) (rd : Ref) (qs : List Int) : Heap × Option Ref :=
   match h[rd]? with
   | some (.dist dr) => match getDdict h dr with
     | some d =>
       let nc := alloc h (.ddict [])
       let h1 := write nc.1 dr (.ddict [])                     -- self.distribution_dict.pop(key) for every key
-      let r := distCtorE h1 (marginalV d qs) (dsum d = 1); (r.1, some r.2)
+      let r := distCtorE h1 (marginalV d qs) (isNormalized (dsum d)); (r.1, some r.2)
     | none => (h, none)
   | _ => (h, none)
 
